@@ -103,7 +103,7 @@ func init() {
 			{Scenario: "xfer", Stratum: "stall", Quick: 300, Thorough: 8000, PerJob: 4},
 		},
 		QuickBudget: 60 * time.Second, ThoroughBudget: 25 * time.Minute, CountCases: false,
-		Rule: "evaluations = seeded simulated runs. 'core-enum': one run = one drawn configuration of two raw cores x ALL 4^K assignments of {deliver, drop, duplicate, deliver-late} to the first K datagrams (K=4 quick, K=6 thorough; both directions, emission order), each followed by a fair network - enumerated_cases counts them. 'core/heal' and 'xfer/heal': seeded faults and, in half of the runs, a total outage (up to 10 virtual minutes) until a seeded instant, then a fair network; the writers stop when the network heals, and everything written must be read and both backlogs must be zero within an analytic budget (120 s probe back-off + (max retransmission count + 2) x 60 s + a stop-and-wait allowance per queued segment). Non-trivial = at least one fault fired and payload reached a reader; distinct = distinct event-log hashes among those; in every session-level run (strata '' and 'stall' are run for this purpose too) the always-on invariant O-silence applies: a session that holds queued or in-flight segments hands something to the transport at least every 150 s of virtual time (retransmission timeout at most 60 s, zero-window probe interval at most 120 s), whatever the network does with it",
+		Rule: "evaluations = seeded simulated runs. 'core-enum': one run = one drawn configuration of two raw cores x ALL 4^K assignments of {deliver, drop, duplicate, deliver-late} to the first K datagrams (K=4 quick, K=6 thorough; both directions, emission order), each followed by a fair network - enumerated_cases counts them. 'core/heal' and 'xfer/heal': seeded faults and, in half of the runs, a total outage (up to 10 virtual minutes) until a seeded instant, then a fair network; the writers stop when the network heals, and everything written must be read and both backlogs must be zero within an analytic budget (120 s probe back-off + (max retransmission count + 2) x 60 s + a stop-and-wait allowance per queued segment). Non-trivial = at least one fault fired and payload reached a reader; distinct = distinct event-log hashes among those; in every session-level run (strata '' and 'stall' are run for this purpose too) the always-on invariant O-silence applies: a session that holds unsent data and has nothing unacknowledged in flight, or whose peer's window stands at zero, hands something to the transport at least every 150 s of virtual time (new data at its next flush; zero-window probe interval at most 120 s), whatever the network does with it",
 		Real: append([]string{"both ways of driving the core: session-style flush with the returned interval, and the public Update/Check loop"}, realSession...), Stub: stubSession,
 		Assumptions: append([]string{"liveness is judged only after the last fault, with readers that keep reading", "the budget is an analytic over-approximation, not a tuned constant; a run that exceeds it is reported with the stuck state", "in message mode the generator keeps fragments per message <= the peer's receive window (the raw core accepts larger messages that can never be delivered; see DESIGN.md)"}, assumeCommon...),
 		WantProbes:  []string{"drop", "duplicate", "deliver-late", "outage-drop", "retransmission-on-wire"},
